@@ -237,8 +237,12 @@ class Hist:
             c = self.chain(wt, net, acct, change)
             try:
                 if r < 0.2:
-                    k = w.new_key(change=change, **kw)
-                    self.record('new.%s.1' % c, [k], 'new_key(change=%d, %s)' % (change, kw))
+                    kw2 = dict(kw)
+                    if rng.random() < 0.25:
+                        kw2['cosigner_id'] = 0        # meaningless for a single-signature wallet: the key issued is the next one all the same
+                        self.ctx.count('new_key-with-cosigner_id')
+                    k = w.new_key(change=change, **kw2)
+                    self.record('new.%s.1' % c, [k], 'new_key(change=%d, %s)' % (change, kw2))
                 elif r < 0.3:
                     k = w.new_key_change(**kw)
                     self.record('new.%s.1' % self.chain(wt, net, acct, 1), [k], 'new_key_change(%s)' % kw)
